@@ -1,6 +1,7 @@
 (* Entry_mindex.v -- flat-list entry points of Model_mindex for the extracted driver. *)
 From Coq Require Import ZArith List Bool.
 From PV Require Import Num Model_mindex.
+From PV.gen Require Import Gen_mindex.
 Import ListNotations.
 
 Section Entry.
@@ -64,4 +65,59 @@ Section Entry.
       match mindex_of_angles s angs with Ok r => Ok (r :: angs) | Err e => Err e end).
 
   Definition run_matq (xs : list F) : res (list F) := Ok (mat_of_quat (q_of xs)).
+
+  (* ---- the GENERATED definitions (coq/gen/Gen_mindex.v), run next to the model and the implementation ---- *)
+  Definition arr_of (l : list F) : arr F := mk_arr nzero l.
+
+  Definition run_gen_qprod (xs : list F) : res (list F) :=
+    Ok (arr_to_list 4 (k_quat_product (arr_of (firstn 4 xs)) (arr_of (skipn 4 xs)))).
+
+  Definition gen_random_of (s : Lattice) : F -> F -> res F :=
+    match s with
+    | Triclinic => k_misorientations_random_triclinic | Monoclinic => k_misorientations_random_monoclinic
+    | Orthorhombic => k_misorientations_random_orthorhombic | Rhombohedral => k_misorientations_random_rhombohedral
+    | Tetragonal => k_misorientations_random_tetragonal | Hexagonal => k_misorientations_random_hexagonal
+    end.
+  Definition gen_index_of (s : Lattice) : arr F -> res F :=
+    match s with
+    | Triclinic => k_misorientation_index_triclinic | Monoclinic => k_misorientation_index_monoclinic
+    | Orthorhombic => k_misorientation_index_orthorhombic | Rhombohedral => k_misorientation_index_rhombohedral
+    | Tetragonal => k_misorientation_index_tetragonal | Hexagonal => k_misorientation_index_hexagonal
+    end.
+
+  Definition run_gen_random (sys : Z) (xs : list F) : res (list F) :=
+    with_lattice sys (fun s =>
+      match xs with
+      | [lo; hi] => match gen_random_of s lo hi with Ok r => Ok [r] | Err e => Err e end
+      | _ => Err OtherError
+      end).
+
+  (* the generated index of a given histogram (theta_max numbers) *)
+  Definition run_gen_index (sys : Z) (xs : list F) : res (list F) :=
+    with_lattice sys (fun s => match gen_index_of s (arr_of xs) with Ok r => Ok [r] | Err e => Err e end).
+
+  (* the generated operator tables, in the format of run_symops (a 4x4 operator is given by its diagonal) *)
+  Definition op4l (a : arr F) : list F := nzero :: arr_to_list 4 a.
+  Definition op16l (a : arr F) : list F := [none; a 0%nat; a 5%nat; a 10%nat; a 15%nat].
+  Definition run_gen_symops (sys : Z) (xs : list F) : res (list F) :=
+    with_lattice sys (fun s =>
+      Ok match s with
+         | Triclinic => op4l k_symmetry_operations_triclinic
+         | Monoclinic =>
+             let '(o0, o1, o2, o3, o4, o5, o6) := k_symmetry_operations_monoclinic in
+             op4l o0 ++ op4l o1 ++ op4l o2 ++ op4l o3 ++ op16l o4 ++ op16l o5 ++ op16l o6
+         | Orthorhombic =>
+             let '(o0, o1, o2, o3, o4, o5, o6) := k_symmetry_operations_orthorhombic in
+             op4l o0 ++ op4l o1 ++ op4l o2 ++ op4l o3 ++ op16l o4 ++ op16l o5 ++ op16l o6
+         | Rhombohedral =>
+             let '(o0, o1, o2, o3, o4, o5, o6) := k_symmetry_operations_rhombohedral in
+             op4l o0 ++ op4l o1 ++ op4l o2 ++ op4l o3 ++ op4l o4 ++ op4l o5 ++ op4l o6
+         | Tetragonal =>
+             let '(o0, o1, o2, o3, o4, o5, o6, o7, o8, o9) := k_symmetry_operations_tetragonal in
+             op4l o0 ++ op4l o1 ++ op4l o2 ++ op4l o3 ++ op4l o4 ++ op4l o5 ++ op4l o6 ++ op4l o7 ++ op4l o8 ++ op4l o9
+         | Hexagonal =>
+             let '(o0, o1, o2, o3, o4, o5, o6, o7, o8, o9, o10, o11, o12, o13, o14, o15) := k_symmetry_operations_hexagonal in
+             op4l o0 ++ op4l o1 ++ op4l o2 ++ op4l o3 ++ op4l o4 ++ op4l o5 ++ op4l o6 ++ op4l o7 ++ op4l o8 ++ op4l o9
+             ++ op4l o10 ++ op4l o11 ++ op4l o12 ++ op4l o13 ++ op4l o14 ++ op4l o15
+         end).
 End Entry.
